@@ -459,4 +459,9 @@ def main_wrapper(prop, fn):
     except Undecided as ex:
         print("UNDECIDED %s: %s" % (prop, ex), file=sys.stderr)
         rc = 2
+        if ctx.violations:
+            # violations of the property were already observed on the real code (and printed with their replay
+            # files) before a later part of the check could not be decided: the verdict stands
+            print("%s: %d violation(s) before the undecided part" % (prop, len(ctx.violations)))
+            rc = 1
     sys.exit(rc)
